@@ -2,6 +2,9 @@ module verifharness
 
 go 1.23.0
 
-require github.com/theparanoids/ysshra v0.0.0
+require (
+	github.com/theparanoids/ysshra v0.0.0
+	golang.org/x/crypto v0.35.0
+)
 
 replace github.com/theparanoids/ysshra => /repo
